@@ -40,6 +40,7 @@ import (
 	"strconv"
 	"strings"
 	"sync"
+	"syscall"
 	"time"
 
 	"github.com/IrineSistiana/mosdns/v5/pkg/upstream"
@@ -673,8 +674,14 @@ func (cc *caseCtx) listenLoop(ctx context.Context, targets []target, ports []int
 							cc.addObs(&Obs{Via: "udp", HostRaw: tg.ip.String(), Host: tg.label, Port: port})
 						}
 						if n >= 12 {
-							b[2] |= 0x80
-							pc.WriteTo(b[:n], from)
+							r := append([]byte(nil), b[:n]...)
+							r[2] |= 0x80
+							go func() {
+								// not instantly: the pinned transport can drop a reply that arrives
+								// before the caller parks (C02/D1); irrelevant here
+								time.Sleep(3 * time.Millisecond)
+								pc.WriteTo(r, from)
+							}()
 						}
 					}
 				}()
@@ -801,6 +808,13 @@ func runOnce(c Case, timeout time.Duration, try int) (res Result) {
 			tl := time.Now()
 			v6Mu.Lock()
 			defer v6Mu.Unlock()
+			// ... and across processes (another check / selftest running at the same time)
+			if f, err := os.OpenFile(os.TempDir()+"/verif-v6-loopback.lock", os.O_CREATE|os.O_RDWR, 0o666); err == nil {
+				if syscall.Flock(int(f.Fd()), syscall.LOCK_EX) == nil {
+					defer syscall.Flock(int(f.Fd()), syscall.LOCK_UN)
+				}
+				defer f.Close()
+			}
 			res.LockMs = time.Since(tl).Milliseconds()
 		}
 		var targets []target
